@@ -127,3 +127,9 @@ package convert
 //@   ensures[C08] type: (= (vty result) targetTy)
 //@   ensures[C08] lengths: (=> (and (is_coll_ty st) (is_coll_ty targetTy) (not (is_known result))) (and (<= (rfn_len_lo rw) (ite (is_set_ty targetTy) (ite (> lo 0) 1 0) lo)) (>= (rfn_len_hi rw) hi)))
 //@   ensures[C08] notnull_only_if_source: (=> (and (not (is_known result)) (= (rfn_null rw) 70)) (= (rfn_null w) 70))
+//
+// Convert (assumed until the conversion closures are all under contract): a nil error comes with a
+// well-formed value whose type conforms to the requested type and carries no optional-attribute annotations.
+//@ func convert.Convert
+//@   trusted
+//@   ensures (=> (= result.1 nil.Any) (and (conforms (vty result.0) want) (wf_ty (vty result.0)) (wf_marks result.0) (not (has_opt (vty result.0)))))
